@@ -111,8 +111,7 @@ def run(ctx):
                         return (t["file"], t["line"]) if t else None
                     judge_usage(ctx, ws, model, order, f, u, actual_at, "vh")
             vh.call(op="drop_db", db=db)
-            if i < 3:
-                ctx.sample({"spec": ws.spec, "files": sorted(ws.files)[:12]})
+            ctx.sample({"spec": ws.spec, "files": sorted(ws.files)[:12]})
             if i < n_lsp:
                 run_lsp(ctx, ws, model, order)
             ctx.count("workspaces")
